@@ -835,7 +835,10 @@ def run_segment(plan, ctx, detail=False, table=None):
                 if k == "add_qubit":
                     names[mutated] = dict(objs[mutated].qubit_map)
         elif mutated is not None and mutated in objs and violation is None:
-            # a failed / refused call: the statement is silent about the target; re-synchronise
+            # a failed / refused call: the statement is silent about the target; re-synchronise.  Whether the refused
+            # call left a trace in its target is counted (reach measure, no verdict: DESIGN 10.21)
+            if outcome != "faulted:interrupt" and mutated in sfp:
+                probe("refused_call_" + ("left_a_trace_in_its_target:" if struct_fp(objs[mutated]) != sfp[mutated] else "left_its_target_unchanged:") + k)
             try:
                 model[mutated] = unitary_of_circuit(objs[mutated])
             except Exception:
